@@ -142,8 +142,8 @@ def inverse_cases(draw, dim):
 
 # ---- checks ---------------------------------------------------------------------------------------------------------
 def rotation_bounds(dim, terms, M, uhat):
-    """per-order magnitude bound of the rotated polynomial at direction uhat: every q_i is bounded by w_i = sum_j |M_ij||uhat_j|"""
-    w = np.abs(np.asarray(M)) @ np.abs(uhat)
+    """per-order magnitude bound of the rotated polynomial on the unit sphere: every q_i is bounded by w_i = sum_j |M_ij|"""
+    w = np.abs(np.asarray(M)).sum(axis=1)  # |uhat_j| <= 1; not weighted with the direction, see taylor_ref.bounds
     w2 = float(np.dot(w, w))
     pw = tr.powers(dim)
     out = {}
@@ -384,10 +384,10 @@ def run(ctx):
     ctx.corpus(check)
     cat = catalogue()
     ctx.cases([c for i, c in enumerate(cat) if ctx.mine(i)], check, label="catalogue")
-    ctx.given(rotate_cases(3), check, quick=2000, thorough=100000, salt=1, label="rotate 3D")
-    ctx.given(rotate_cases(2), check, quick=2000, thorough=100000, salt=2, label="rotate 2D")
-    ctx.given(inverse_cases(3), check, quick=1200, thorough=50000, salt=3, label="inverse 3D")
-    ctx.given(inverse_cases(2), check, quick=1200, thorough=60000, salt=4, label="inverse 2D")
+    ctx.given(rotate_cases(3), check, quick=2000, thorough=40000, salt=1, label="rotate 3D")
+    ctx.given(rotate_cases(2), check, quick=2000, thorough=40000, salt=2, label="rotate 2D")
+    ctx.given(inverse_cases(3), check, quick=1200, thorough=20000, salt=3, label="inverse 3D")
+    ctx.given(inverse_cases(2), check, quick=1200, thorough=24000, salt=4, label="inverse 2D")
     if _EXCLUDED["real_scalar_inverse"]:
         ctx.exclude("real_scalar_inverse", _EXCLUDED["real_scalar_inverse"])
 
